@@ -233,29 +233,40 @@ fn fmt_source_code_trace(
     printer
         .new_line()
         .with_margin_content(format!["{}", s.line_number])
-        .with_content(highlight_substring(&s.line_content, s.index, s.value.len()))
+        .with_content(highlight_substring(&s.line_content, s.index, s.value.chars().count()))
         .print(f)?;
     printer
         .new_line()
         .with_content(format![
             "{}{} {}",
             " ".repeat(s.index),
-            line_kind.color(&"^".repeat(s.value.len())).bold(),
+            line_kind.color(&"^".repeat(s.value.chars().count())).bold(),
             line_kind.color(annotation).bold(),
         ])
         .print(f)?;
     Ok(())
 }
 
+/// Highlights `length` characters of the line beginning at the character with index `start`.
+///
+/// Both arguments count characters, not bytes: the index of a source code trace is a
+/// character index, and a line may contain multi-byte characters.
 fn highlight_substring(line: &str, start: usize, length: usize) -> String {
-    if line.len() < start + length {
-        return line.into();
-    }
+    let byte_index = |char_index: usize| -> Option<usize> {
+        line.char_indices()
+            .map(|(byte_index, _)| byte_index)
+            .chain(std::iter::once(line.len()))
+            .nth(char_index)
+    };
+    let (byte_start, byte_end) = match (byte_index(start), byte_index(start + length)) {
+        (Some(byte_start), Some(byte_end)) => (byte_start, byte_end),
+        _ => return line.into(),
+    };
     format![
         "{}{}{}",
-        &line[..start],
-        (&line[start..start + length]).bold(),
-        line[start + length..].trim_end(),
+        &line[..byte_start],
+        (&line[byte_start..byte_end]).bold(),
+        line[byte_end..].trim_end(),
     ]
 }
 
@@ -280,13 +291,13 @@ fn fmt_source_code_trace_light(
         f,
         "{}  {}",
         prefix,
-        highlight_substring(&s.line_content, s.index, s.value.len())
+        highlight_substring(&s.line_content, s.index, s.value.chars().count())
     )?;
     writeln!(
         f,
         "{}  {} {}",
         " ".repeat(prefix.len() + s.index),
-        line_kind.color(&"^".repeat(s.value.len())).bold(),
+        line_kind.color(&"^".repeat(s.value.chars().count())).bold(),
         annotation,
     )?;
     Ok(())
